@@ -27,7 +27,7 @@ from checks import nestlib
 TOP = ("top", False)
 
 
-def _rules(leaves="PMGS", loops=(0, 1, 2), wrappers=("parseq", "call", "seq")):
+def _rules(leaves="PMGS", loops=(0, 1, 2), wrappers=("parseq", "call", "seq"), looppar=False):
     R = {}
     for in_par in (False, True):
         lv = [l for l in leaves if not (in_par and l == "S")]
@@ -35,6 +35,9 @@ def _rules(leaves="PMGS", loops=(0, 1, 2), wrappers=("parseq", "call", "seq")):
         st = [("L", lv, "leaf", None), ("loop", list(loops), "many", sq)]
         if "parseq" in wrappers:
             st.append(("parseq", [None], "many", ("seq", True)))
+            if looppar:
+                # a loop whose body is itself a parallel block: loop c < { .. } >
+                st.append(("looppar", [c for c in loops if c != 1], "many", ("seq", True)))
         if "call" in wrappers:
             st.append(("call", [None], "many", sq))
         R[sq] = st
@@ -46,7 +49,7 @@ def _rules(leaves="PMGS", loops=(0, 1, 2), wrappers=("parseq", "call", "seq")):
 
 # alphabets, richest first; the size classes they are used for are chosen in bounds()
 GRAMMARS = {
-    "rich": TreeGrammar(_rules()),  # 4 leaves, loop 0/1/2, { }, < { } >, macro call
+    "rich": TreeGrammar(_rules(looppar=True)),  # 4 leaves, loop 0/1/2, { }, < { } >, macro call
     "mid": TreeGrammar(_rules("PMGS", (0, 2))),  # rich without count 1
     "lean": TreeGrammar(_rules("PMG", (0, 2), ("call",))),
     "core": TreeGrammar(_rules("PMG", (2,), ())),
@@ -77,6 +80,9 @@ def legal(forest, top=True, in_par=False):
         elif k == "parseq":
             if not legal(t[2], False, True):
                 return False
+        elif k == "looppar":
+            if t[1] not in (0, 1, 2, 3) or not legal(t[2], False, True):
+                return False
         elif k == "call":
             if not legal(t[2], False, in_par):
                 return False
@@ -101,6 +107,8 @@ def to_prog(forest):
             return ("seq", ch)
         if k == "parseq":
             return ("par", (("seq", ch),))
+        if k == "looppar":
+            return ("loop", t[1], ("par", (("seq", ch),)))
         if k == "call":
             name = "m%d" % len(macros)
             macros.append(("macro", name, (), ("seq", ch)))
@@ -119,7 +127,7 @@ def word(forest):
         k = t[0]
         if k == "L":
             out.append("PGM" if t[1] == "S" else t[1])
-        elif k == "loop":
+        elif k in ("loop", "looppar"):
             out.append("[%s" % ("o", "i", "r")[min(t[1], 2)])
             out.append(word(t[2]))
             out.append("]")
@@ -156,8 +164,10 @@ def _reprepare_in_loop(j):
 
 
 def _simpler(t):
-    if t[0] == "loop" and t[1] >= 2:
-        yield ("loop", t[1] - 1, t[2])
+    if t[0] in ("loop", "looppar") and t[1] >= 2:
+        yield (t[0], t[1] - 1, t[2])
+    if t[0] == "looppar":
+        yield ("loop", t[1], t[2])
     # (the other wrappers are removed by hoisting their children)
 
 
@@ -219,7 +229,7 @@ class C12(Check):
 
     # ------------------------------------------------------------ space
     _DOC = {
-        "rich": "leaves P M G S; loop 0/1/2; {..}; <{..}>; macro call",
+        "rich": "leaves P M G S; loop 0/1/2; {..}; <{..}>; loop c <{..}>; macro call",
         "mid": "leaves P M G S; loop 0/2; {..}; <{..}>; macro call",
         "lean": "leaves P M G; loop 0/2; macro call",
         "core": "leaves P M G; loop 2",
